@@ -67,6 +67,8 @@ def _handler_calls_hook_on_all_paths(h: ast.ExceptHandler) -> bool:
 
 
 def run(ck, m):
+    from rules.common import rule_memo_safety
+    rule_memo_safety(ck, m, "MEMO", "C07")          # first: a memoised helper also hides the code it wraps from the rules below
     draw_new = m.get(RN, "Renderable.draw")
     animate_new = m.get(RN, "Renderable._animate_")
     render_old = m.get(CM, "BaseImage.draw.render")
@@ -185,7 +187,9 @@ def run(ck, m):
         rend = next((s for s in cls.body if isinstance(s, ast.FunctionDef) and s.name == "_render_image"), None)
         chunked = rend is not None and any(isinstance(x, ast.Call) and (call_name(x) or "").split(".")[-1] in ("get_chunks", "get_chunked") for x in ast.walk(rend))
         if chunked:
-            ck.ob("R3", c, "KITTY_END_CHUNKED" in names_in(trace(hook, arg)), f"{cls.name} transmits in chunks; its hook must also send KITTY_END_CHUNKED", stmt=f"{cls.name}: hook ends chunked transmission")
+            hook_cases = emit.cases(emit.Builder(hook).expr(arg), {}, limit=4) or []
+            every = bool(hook_cases) and all(any(isinstance(a_, emit.Sym) and a_.text.split(".")[-1] in ("KITTY_END_CHUNKED", "KITTY_END_CHUNKED_b") for a_ in emit.atoms(t_)) for _, t_ in hook_cases)
+            ck.ob("R3", c, "KITTY_END_CHUNKED" in names_in(trace(hook, arg)) and every, f"{cls.name} transmits in chunks; its hook must also send KITTY_END_CHUNKED", stmt=f"{cls.name}: hook ends chunked transmission")
 
     # ---- R4 ----------------------------------------------------------------------------
     tr = next((s for s in anim_old.body if isinstance(s, ast.Try) and s.finalbody), None)
@@ -272,8 +276,6 @@ def run(ck, m):
                   "covered by the handlers - so Ctrl-C at that point propagates instead of ending the animation silently", stmt=f"{fn.name}: interruptible step protected: {short(c, 50)}")
         ck.expect(n_ops >= 3, f"{fn.name}: expected >= 3 waits / frame steps, found {n_ops}")
 
-    from rules.common import rule_memo_safety
-    rule_memo_safety(ck, m, "MEMO", "C07")
 
 
 MUTANTS = [
